@@ -171,9 +171,10 @@ theorem openSession_fields (st : St) (a : Ip) (p : Peer) (role : Role) :
     (openSession st a p role).1.asn = st.asn ∧ (openSession st a p role).1.rid = st.rid ∧
     (openSession st a p role).1.confed = st.confed ∧ (openSession st a p role).1.groups = st.groups ∧
     ∃ s : Sess, (openSession st a p role).1.live = st.live ++ [s] ∧ s.sid = st.nextSid ∧ s.addr = a ∧ s.role = role ∧
-      s.ctx = p.ctx ∧ s.doom = none ∧ s.asn = p.cfg.localAsn ∧ s.hold = p.cfg.hold ∧ s.caps = p.cfg.caps := by
+      s.ctx = p.ctx ∧ s.doom = none ∧ s.asn = p.cfg.localAsn ∧ s.hold = p.cfg.hold ∧ s.caps = p.cfg.caps ∧
+      s.expected = p.cfg.expected := by
   unfold openSession St.setCtx
-  exact ⟨rfl, rfl, rfl, rfl, rfl, rfl, rfl, _, rfl, rfl, rfl, rfl, rfl, rfl, rfl, rfl, rfl⟩
+  exact ⟨rfl, rfl, rfl, rfl, rfl, rfl, rfl, _, rfl, rfl, rfl, rfl, rfl, rfl, rfl, rfl, rfl, rfl⟩
 
 theorem ctx_openSession (st : St) (a : Ip) (p : Peer) (role : Role) (hp : p.ctx < st.ctxs.length) (j : Nat) :
     (openSession st a p role).1.ctx j = if j = p.ctx then (st.ctx p.ctx).set role (some st.nextSid) else st.ctx j := by
@@ -258,7 +259,10 @@ theorem addPeer_eq (st : St) (p : Params) (st' : St) (h : addPeer st p = some st
   unfold addPeer at h
   cases hl : plookup p.addr st.peers with
   | some x => simp [hl] at h
-  | none => simp [hl] at h; exact ⟨rfl, h.symm⟩
+  | none =>
+    by_cases hp : polOk p.pol = true
+    · simp [hl, hp] at h; exact ⟨rfl, h.symm⟩
+    · simp [hl, hp] at h
 
 theorem ctx_append (st st' : St) (hc : st'.ctxs = st.ctxs ++ [({} : Ctx)]) (j : Nat) : st'.ctx j = st.ctx j := by
   simp only [St.ctx, hc]
@@ -512,8 +516,8 @@ theorem afterApply_fields (st : St) (s : Sess) :
     (afterApply st s).groups = st.groups := ⟨rfl, rfl, rfl, rfl, rfl, rfl, rfl⟩
 
 /-- `disconnect` in terms of `afterApply` -/
-theorem disconnect_eq (st : St) (sid : Nat) (s : Sess) (h : st.live.find? (fun x => x.sid = sid) = some s) :
-    (disconnect st sid).1 =
+theorem disconnect_eq (st : St) (sid : Nat) (reply : Option Nat) (s : Sess) (h : st.live.find? (fun x => x.sid = sid) = some s) :
+    (disconnect st sid reply).1 =
       (let st2 := afterApply st s
        let c := (st.ctx s.ctx).set s.role none
        match plookup s.addr st2.peers with
@@ -535,16 +539,16 @@ theorem disconnect_eq (st : St) (sid : Nat) (s : Sess) (h : st.live.find? (fun x
       · simp only [a, b, if_true, Bool.false_eq_true, if_false]
     · simp only [a, Bool.false_eq_true, if_false]
 
-theorem disconnect_none (st : St) (sid : Nat) (h : st.live.find? (fun x => x.sid = sid) = none) :
-    disconnect st sid = (st, .noSession) := by
+theorem disconnect_none (st : St) (sid : Nat) (reply : Option Nat) (h : st.live.find? (fun x => x.sid = sid) = none) :
+    disconnect st sid reply = (st, .noSession) := by
   simp [disconnect, h]
 
-theorem inv_disconnect (st : St) (sid : Nat) (hi : Inv st) : Inv (disconnect st sid).1 := by
+theorem inv_disconnect (st : St) (sid : Nat) (reply : Option Nat) (hi : Inv st) : Inv (disconnect st sid reply).1 := by
   cases hf : st.live.find? (fun x => x.sid = sid) with
-  | none => rw [disconnect_none st sid hf]; exact hi
+  | none => rw [disconnect_none st sid reply hf]; exact hi
   | some s =>
     obtain ⟨hs, hsid⟩ := find_sid hf
-    rw [disconnect_eq st sid s hf]
+    rw [disconnect_eq st sid reply s hf]
     have hA := inv_afterApply st s hi.core hs
     -- the sessions that remain
     have hrem : ∀ x ∈ st.live, x.sid ≠ s.sid → x ∈ (afterApply st s).live := by
@@ -779,7 +783,10 @@ theorem inv_step (st : St) (op : Op) (hi : Inv st) (st' : St) (r : Res) (b : Boo
   | connect a role => exact inv_acceptConnection st a role hi st' r b h
   | disc sid =>
     simp only [step, Out.ok.injEq, Prod.mk.injEq] at h
-    rw [← h.1]; exact inv_disconnect st sid hi
+    rw [← h.1]; exact inv_disconnect st sid none hi
+  | discx sid asn hold =>
+    simp only [step, Out.ok.injEq, Prod.mk.injEq] at h
+    rw [← h.1]; exact inv_disconnect st sid (some asn) hi
   | enable a =>
     simp only [step, apiOp] at h
     cases hl : plookup a st.peers with
